@@ -1526,11 +1526,11 @@ def member_check(chunks, level, mtime, member):
     except Exception:
         lawful = False
     if not lawful:
+        # valid for gzip.decompress but not header(10) + raw deflate + trailer(8): the statement is met (optional
+        # header fields, several members ... are legal gzip); it is the MODEL's layout that does not fit -> reported
+        # as a model/implementation disagreement by settle(), not as an oracle failure
         hist.append('frame:payload_not_a_complete_deflate_stream')
-        if ok:
-            fails.append(('bytes 10..-8 of the member are not one complete raw-deflate stream of the body',
-                          'gz:invalid_member'))
-        return fails, None, hist
+        return fails, ('unframed' if ok else None), hist
     hist.append('frame:checked')
     return fails, 'frame %d %d %s %s %s' % (level, int(mtime), H(payload), L(H(c) for c in chunks), H(member)), hist
 
@@ -1695,7 +1695,12 @@ def settle(ctx, recs, compare=True):
         for what, sig in rec['fails']:
             ctx.oracle_fail(case, what, sig)
         known_class = any(ctx.match_known(sig) for _, sig in rec['fails'])
-        if rec.get('frame'):
+        if rec.get('frame') == 'unframed':
+            ctx.compared()
+            ctx.disagree({k: v for k, v in case.items() if k != 'chunks'} | {'chunks': case['chunks'][:20]},
+                         'a member gzip.decompress accepts', 'header(10) + raw deflate + trailer(8)',
+                         'the gzip member is valid but not laid out as the model builds it (optional header fields?)')
+        elif rec.get('frame'):
             lines.append(rec['frame'])
             pending.append(('frame', case, None))
         if rec['fails'] and not known_class:
